@@ -58,8 +58,18 @@ UNFIX = {
 EDITS = [
     ("C01", "driver keeps one sample twice", "compute.py", "        signal = signal[chunk_size:]\n    coeffs.append(computer.finalize())",
      "        signal = signal[chunk_size - 1:]\n    coeffs.append(computer.finalize())", "R-C01-driver"),
-    ("C01", "finalize pads by reflection without the edge", "compute.py", 'frames = np.pad(self._buf[-buf_len:], (pad_left, pad_right), "symmetric",)',
-     'frames = np.pad(self._buf[-buf_len:], (pad_left, pad_right), "reflect",)', "R-C01-geom-siblings"),
+    ("C01", "finalize pads by reflection without the edge", "compute.py", 'self._buf[frame_length - hist_len :], (pad_left, pad_right), "symmetric"',
+     'self._buf[frame_length - hist_len :], (pad_left, pad_right), "reflect"', "R-C01-geom-siblings"),
+    ("C01", "finalize reflects the pending samples only", "compute.py", "            hist_len = max(self._hist_len, buf_len)\n",
+     "            hist_len = buf_len\n", "R-C01-reflection-depth"),
+    ("C01", "short first utterance still framed by finalize", "compute.py", "        elif buf_len < frame_length // 2 + 1:\n",
+     "        elif buf_len < frame_length // 2:\n", "R-C01-short-signal"),
+    ("C07", "gammatone support end shifted twice", "filters.py", "        return (int(np.floor(offset)), int(np.ceil(right) + offset))",
+     "        return (int(np.floor(offset)), int(np.ceil(right) + 2 * offset))", "R-C07-support-frame"),
+    ("C15", "stack: feature axis coefficient-major", "post.py", "                feat_slice[time_axis] = slice(i, T, self.num_vectors)",
+     "                feat_slice[time_axis] = slice(i * nT, (i + 1) * nT)", "R-C15-stack-layout"),
+    ("C15", "stack 2-D: transpose decided by the raw attribute", "post.py", "            if time_axis:\n                features = features.T\n            features = features[:T]",
+     "            if self.time_axis:\n                features = features.T\n            features = features[:T]", "R-C15-stack-layout"),
     ("C02", "log without floor", "compute.py", "val = np.log(max(val, config.LOG_FLOOR_VALUE))", "val = np.log(val)", "R-C02-logfloor"),
     ("C02", "energy from the windowed frame", "compute.py", "coeffs[0] = np.inner(frame, frame) / self._frame_length",
      "coeffs[0] = np.inner(frame * self._window, frame * self._window) / self._frame_length", "R-C02-energy"),
